@@ -272,12 +272,19 @@ def run(ctx, report):
         keys_b, bics_b = allkeys, allbics
     else:
         rnd = random.Random(7919 * (ctx.seed + 1))
-        keys_b = sorted(set(rnd.sample(multi, min(60, len(multi))) + rnd.sample(allkeys, min(150, len(allkeys)))))
-        bics_b = rnd.sample(allbics, min(60, len(allbics)))
+        keys_b = sorted(set(rnd.sample(multi, min(600, len(multi))) + rnd.sample(allkeys, min(1500, len(allkeys)))))
+        bics_b = rnd.sample(allbics, min(600, len(allbics)))
     # bank codes that are all zeros are ordinary codes (five of them are listed): always included
     keys_b = sorted(set(keys_b) | {k for k in allkeys if set(k[1]) == {"0"}})
     keys_b += [("DE", "00000001"), ("GB", "ZZZZ")]
-    check_registry(ctx, report, hb, keys_b, bics_b, "bundled", r_c, r_s, r_i, r_b)
+    # the keys are independent: chunks of them are evaluated in forked workers, the recorded rule instances replayed in order
+    from ..par import replay, run_recorded
+    nchunks = 16 if len(keys_b) > 64 else 1
+    chunks = [(keys_b[i::nchunks], bics_b[i::nchunks]) for i in range(nchunks)]
+    hb.candidates(*keys_b[0])   # builds the index models before the fork
+    real = {r.name: r for r in (r_c, r_s, r_i, r_b)}
+    for recs, _ in run_recorded(list(real), lambda ch, rules: check_registry(ctx, report, hb, ch[0], ch[1], "bundled", rules[r_c.name], rules[r_s.name], rules[r_i.name], rules[r_b.name]), chunks):
+        replay(real, recs, cap=12)
     report.analysed = {"synthetic_entries": len(FIXTURE), "bundled_keys_checked": len(keys_b), "bundled_keys_total": len(allkeys),
                        "bundled_bics_checked": len(bics_b), "bundled_bics_total": len(allbics), "exhaustive_over_bundled_data": ctx.tier == "thorough"}
     report.not_decided += ["which of several 8-character candidates is chosen (any satisfies the statement)",
